@@ -115,6 +115,15 @@ def run(tier, v):
             pc, ps = cuts_to_pieces(len(R), []), cuts_to_pieces(len(S), [])
             add(pi, ic, is_, pc, ps, [("c", 0), ("s", 0)])
             add(pi, ic, is_, pc, ps, [("s", 0), ("c", 0)])
+        # a cut right behind every line terminator of either head (and one octet before / after it)
+        for M, dname in ((R, "c"), (S, "s")):
+            hl = len(head_only(M))
+            ends = sorted({p + dlt for p in range(1, hl) if M[p - 1:p] == b"\n" for dlt in (-1, 0, 1) if 0 < p + dlt < len(M)})
+            for c in ends:
+                ic, is_ = isns[c % 2]
+                pc = cuts_to_pieces(len(R), [c] if dname == "c" else [])
+                ps = cuts_to_pieces(len(S), [c] if dname == "s" else [])
+                add(pi, ic, is_, pc, ps, [("c", i) for i in range(len(pc))] + [("s", i) for i in range(len(ps))])
         # every 2-cut of the request, response in one piece; and vice versa
         step = (1 if tier == "thorough" else 3) * (1 if len(R) < 1000 else 7)
         for c in range(1, len(R), step):
@@ -150,12 +159,15 @@ def run(tier, v):
         cp, sp = 30000 + si % 30000, 80
         ic, is_ = s["isn"]["c"], s["isn"]["s"]
         frames = [frame(cip, sip, cp, sp, ic, 0, 0x02, b""), frame(sip, cip, sp, cp, is_, (ic + 1) % M32, 0x12, b"")]
-        for d, k in s["order"]:
+        for oi, (d, k) in enumerate(s["order"]):
             off, ln = s["pieces"][d][k]
+            # every third connection is closed by the sender of its last-arriving segment in that very segment (FIN|PSH|ACK: a server
+            # that answers and closes, a client that half-closes with its request): the data it carries is analysed like any other
+            fl = 0x19 if (si % 3 == 0 and oi == len(s["order"]) - 1) else 0x18
             if d == "c":
-                frames.append(frame(cip, sip, cp, sp, (ic + 1 + off) % M32, (is_ + 1) % M32, 0x18, R[off:off + ln]))
+                frames.append(frame(cip, sip, cp, sp, (ic + 1 + off) % M32, (is_ + 1) % M32, fl, R[off:off + ln]))
             else:
-                frames.append(frame(sip, cip, sp, cp, (is_ + 1 + off) % M32, (ic + 1) % M32, 0x18, S[off:off + ln]))
+                frames.append(frame(sip, cip, sp, cp, (is_ + 1 + off) % M32, (ic + 1) % M32, fl, S[off:off + ln]))
         lines.append({"id": si, "op": "packets", "frames": frames})
     vlib.write_ndjson(vec, lines)
     out = os.path.join(wd, "scen.out")
